@@ -187,9 +187,10 @@ pub fn run(opts: &Opts) -> i32 {
                 }
                 // synthesised damage on some sources
                 let mut label = format!("v{version}");
-                if rng.chance(1, 3) {
+                if rng.chance(2, 5) {
                     let mut img = std::fs::read(&src).unwrap();
-                    let name = match rng.below(4) {
+                    let name = match rng.below(6) {
+                        4 | 5 => crate::mutimg::plant_stale_generation(&mut rng, &mut img).unwrap_or("none"),
                         0 => {
                             // an ambiguous legacy tombstone
                             let nb = img.len() / 4096;
